@@ -502,8 +502,8 @@ def handle (st : DState) (line : String) : String × DState :=
         | _ => ("bad-op", st))
      | some q => (match queryStep st.w.orb q with
         | .ok o => (queryOutStr o, st)
-        | .err _ => ("res=err", st)
-        | .panic _ => ("res=panic", st)))
+        | .err t => ("res=err tag=" ++ t, st)
+        | .panic t => ("res=panic tag=" ++ t, st)))
   | ["export"] => ("st=" ++ stateStr st.w.orb, st)
   | ["reimport"] =>
     let (obs, o) := reimportStep st.w.orb
@@ -513,11 +513,11 @@ def handle (st : DState) (line : String) : String × DState :=
      | _ => ("bad-op", st))
   | ["genvalidate", g] =>
     (match parseGenesis g with
-     | some g => (match validateGenesis g with | .ok _ => "res=ok" | .err _ => "res=err" | .panic _ => "res=panic", st)
+     | some g => (match validateGenesis g with | .ok _ => "res=ok" | .err t => "res=err tag=" ++ t | .panic t => "res=panic tag=" ++ t, st)
      | none => ("bad-op", st))
   | ["geninit", g] =>
     (match parseGenesis g with
-     | some g => (match initGenesis g with | .ok o => "res=ok st=" ++ stateStr o | .err _ => "res=err" | .panic _ => "res=panic", st)
+     | some g => (match initGenesis g with | .ok o => "res=ok st=" ++ stateStr o | .err t => "res=err tag=" ++ t | .panic t => "res=panic tag=" ++ t, st)
      | none => ("bad-op", st))
   | ["genload", g] =>
     (match parseGenesis g with
